@@ -58,25 +58,9 @@ def run_tlc(scratch, module, cfg, env=None, workers=None, heap="6g", timeout=900
     name = name or module
     wd = scratch.path("tlc-" + name)
     os.makedirs(wd, exist_ok=True)
-    for f in glob.glob(os.path.join(VERIF, "spec", "*.tla")) + glob.glob(os.path.join(VERIF, "spec", "*.cfg")):
-        shutil.copy(f, wd)
-    cmd = ["java", "-XX:+UseParallelGC", "-Xmx" + heap, "-Xss512m", "-cp", JAR + ":" + CM, "tlc2.TLC",
-           "-workers", str(workers or NCPU), "-metadir", os.path.join(wd, "meta"), "-config", cfg]
-    if extra:
-        cmd += extra
-    cmd.append(module + ".tla")
-    e = dict(os.environ)
-    e.pop("JAVA_TOOL_OPTIONS", None)
-    if env:
-        e.update({k: str(v) for k, v in env.items()})
-    t0 = time.time()
-    try:
-        r = subprocess.run(cmd, cwd=wd, env=e, capture_output=True, text=True, timeout=timeout)
-    except subprocess.TimeoutExpired:
-        subprocess.run(["pkill", "-f", "tlc2.TL[C].*" + wd], check=False)
-        raise Infra("TLC timeout on %s/%s after %ds" % (module, cfg, timeout))
-    out = r.stdout + r.stderr
-    res = {"out": out, "rc": r.returncode, "wall": time.time() - t0, "generated": 0, "distinct": 0, "depth": 0}
+    rr = run_tlc_in(wd, module, cfg, env=env, workers=workers, heap=heap, timeout=timeout, extra=extra)
+    out = rr["out"]
+    res = {"out": out, "rc": rr["rc"], "wall": rr["wall"], "generated": 0, "distinct": 0, "depth": 0}
     m = re.search(r"(\d+) states generated, (\d+) distinct states found", out)
     if m:
         res["generated"], res["distinct"] = int(m.group(1)), int(m.group(2))
@@ -86,7 +70,7 @@ def run_tlc(scratch, module, cfg, env=None, workers=None, heap="6g", timeout=900
     res["ok"] = "Model checking completed. No error has been found." in out
     res["violated"] = bool(re.search(r"Error: (Invariant|Action property|Temporal|Deadlock)|is violated|Deadlock reached", out))
     if not res["ok"] and not res["violated"]:
-        raise Infra("TLC failed on %s/%s (rc=%d):\n%s" % (module, cfg, r.returncode, out[-4000:]))
+        raise Infra("TLC failed on %s/%s (rc=%d):\n%s" % (module, cfg, rr["rc"], out[-4000:]))
     return res
 
 
@@ -140,3 +124,67 @@ def save_replay(pid, obj):
     with open(p, "w") as f:
         f.write(json.dumps(obj, indent=1, sort_keys=True) + "\n")
     return p
+
+
+def load_findings():
+    with open(os.path.join(VERIF, "known_findings.json")) as f:
+        return json.load(f)
+
+
+def write_kfopen(wd, findings=None):
+    """Generates KfOpen.tla (the set of OPEN finding ids) from known_findings.json into a TLC work dir."""
+    findings = findings if findings is not None else load_findings()
+    ids = sorted(f["id"] for f in findings["findings"] if f["status"] == "open")
+    with open(os.path.join(wd, "KfOpen.tla"), "w") as f:
+        f.write("------------------------------- MODULE KfOpen -------------------------------\n")
+        f.write("OpenKF == {%s}\n" % ", ".join('"%s"' % i for i in ids))
+        f.write("=============================================================================\n")
+    return ids
+
+
+def validate_traces(scratch, impl, events, name="trace", timeout=900, module="MCtrace", cfg="FsTrace.cfg"):
+    """Validates recorded implementation events (list of dicts, traces concatenated; i == 1 starts a
+    trace) against FsTrace. Returns dict(kf_used, unexplained [(tr, i)], judged, skipped)."""
+    if not events:
+        return {"kf_used": [], "unexplained": [], "judged": 0, "skipped": 0, "wall": 0.0}
+    tf = scratch.path("%s-%s.ndjson" % (name, impl))
+    with open(tf, "w") as f:
+        for ev in events:
+            f.write(json.dumps(ev, separators=(",", ":")) + "\n")
+    wd = scratch.path("tlc-" + name + "-" + impl)
+    os.makedirs(wd, exist_ok=True)
+    r = run_tlc_in(wd, module, cfg, env={"VERIF_TRACE": tf, "VERIF_IMPL": impl}, workers=1, timeout=timeout)
+    out = r["out"]
+    if "HIGHWATER" not in out:
+        raise Infra("trace validation produced no verdict:\n" + out[-4000:])
+    m = re.search(r'<<\s*"JUDGED",\s*(\d+),\s*"SKIPPED",\s*(\d+),\s*"HIGHWATER",\s*(\d+),\s*"LEN",\s*(\d+)\s*>>', out)
+    if not m or m.group(3) != m.group(4):
+        raise Infra("trace validation did not consume the whole trace:\n" + out[-4000:])
+    kf = re.search(r'<<\s*"KFUSED",\s*\{(.*?)\}\s*>>', out, re.S)
+    un = re.search(r'<<\s*"UNEXPLAINED",\s*\{(.*?)\}\s*>>', out, re.S)
+    kf_used = re.findall(r'"([^"]+)"', kf.group(1)) if kf else []
+    unexplained = [(a, int(b)) for a, b in re.findall(r'<<\s*"([^"]+)",\s*(\d+)\s*>>', un.group(1))] if un else []
+    return {"kf_used": kf_used, "unexplained": unexplained, "judged": int(m.group(1)), "skipped": int(m.group(2)),
+            "wall": r["wall"]}
+
+
+def run_tlc_in(wd, module, cfg, env=None, workers=None, heap="6g", timeout=900, extra=None):
+    for f in glob.glob(os.path.join(VERIF, "spec", "*.tla")) + glob.glob(os.path.join(VERIF, "spec", "*.cfg")):
+        shutil.copy(f, wd)
+    write_kfopen(wd)
+    cmd = ["java", "-XX:+UseParallelGC", "-Xmx" + heap, "-Xss512m", "-cp", JAR + ":" + CM, "tlc2.TLC",
+           "-workers", str(workers or NCPU), "-metadir", os.path.join(wd, "meta"), "-config", cfg]
+    if extra:
+        cmd += extra
+    cmd.append(module + ".tla")
+    e = dict(os.environ)
+    e.pop("JAVA_TOOL_OPTIONS", None)
+    if env:
+        e.update({k: str(v) for k, v in env.items()})
+    t0 = time.time()
+    try:
+        r = subprocess.run(cmd, cwd=wd, env=e, capture_output=True, text=True, timeout=timeout)
+    except subprocess.TimeoutExpired:
+        subprocess.run(["pkill", "-f", "tlc2.TL[C].*" + wd], check=False)
+        raise Infra("TLC timeout on %s/%s after %ds" % (module, cfg, timeout))
+    return {"out": r.stdout + r.stderr, "rc": r.returncode, "wall": time.time() - t0}
